@@ -42,8 +42,7 @@ let show_move (r : float Registration.move_result) =
 
 let () =
   iter_lines (fun line ->
-    toks := Array.of_list (Stdlib.List.rev (Stdlib.List.rev_map (fun s -> s)
-              (Stdlib.List.filter (fun s -> s <> "") (String.split_on_char ' ' (String.trim line)))));
+    toks := Array.of_list (tokens line);
     pos := 0;
     match next () with
     | "MV" ->
